@@ -128,7 +128,7 @@ def edit(rng, svcs, rules):
 
 DIRECTED = ["crit-add-then-change", "rule-add-then-change", "svc-add-then-change", "svc-remove-then-add", "svc-remove-all-then-add", "svc-change-and-back", "svc-readd-same", "rule-rename-and-back", "rule-remove-then-add",
             "crit-remove-then-add", "svc-swap-names", "svc-recase-xreply", "rule-recase-and-back", "same-size-edit", "same-address-across-reload", "value-recase-after-noop", "section-drop-then-restore",
-            "xquery-section-drop-then-restore", "rule-strip-after-noop"]
+            "xquery-section-drop-then-restore", "rule-strip-after-noop", "svc-table-full-then-replace", "svc-many-long-names-removed-after-noop"]
 
 SAME_SIZE = {"class": [("aaaa", "bbbb"), ("users", "opers")], "address": [("10.1.2.0/24", "10.1.3.0/24"), ("10.1.*", "10.2.*"), ("2001:db8::/32", "2001:db9::/32")],
              "account": [("alice", "bobby"), ("al*", "bo*")], "hostname": [("*.net", "*.org"), ("host?.net", "host?.org")], "username": [("joe", "jae"), ("~*", "j*")]}
@@ -179,6 +179,19 @@ def directed_chain(rng, kind, svcs, rules):
         r1[0][key] = vals[1]
         sv_ = [(a, pa), (b, pb)]
         return [(sv_, base, []), (sv_, copy.deepcopy(base), [kind]), (sv_, r1, [kind])]
+    if kind == "svc-table-full-then-replace":
+        # the table is as full as it can get (32 services), one is taken out, then another name is added: there is room for it
+        full = [("s%02d.example.net" % k, proto.PROTOS[(k + len(rules)) % len(proto.PROTOS)]) for k in range(32)]
+        rng.shuffle(full)
+        out_ = rng.randrange(32)
+        less = full[:out_] + full[out_ + 1:]
+        more = less + [(rng.choice(["late.example.net", "a-first.example.net", "zz-last.example.net"]), rng.choice(proto.PROTOS))]
+        return [(full, r0, []), (less, r0, [kind]), (more, r0, [kind])]
+    if kind == "svc-many-long-names-removed-after-noop":
+        # many services with long names are removed by ONE reload that is not the daemon's first
+        many = [("dronecheck-%02d.long-name.example.org" % k, rng.choice(["dronecheck", "login"])) for k in range(rng.choice([12, 16, 24]))]
+        keep = [(a, pa), (b, pb)]
+        return [(many + keep, r0, []), (many + keep, r0, [kind]), (keep, r0, [kind])]
     if kind == "rule-strip-after-noop":
         # an unchanged reload first, then one rule (the first or the last one looked at) loses all its settings in one go
         nm = rng.choice(["00first", "zzlast"])
